@@ -580,8 +580,11 @@ func (x *Exec) modHeaps(fn *ssa.Function, blocks map[*ssa.BasicBlock]bool, visit
 				c := in.Common()
 				if c.IsInvoke() {
 					impls := x.eng.implementers(c.Value.Type())
-					if !x.eng.closedIface(c.Value.Type()) || len(impls) == 0 {
-						if fc := x.ifaceContract(c); fc != nil && (fc.Pure || fc.HasAssign) {
+					ifc := x.ifaceContract(c)
+					// an interface-level contract is what a call through the interface is checked against
+					// (unless it opts into devirtualisation, where the implementation's contract may apply)
+					if !x.eng.closedIface(c.Value.Type()) || len(impls) == 0 || (ifc != nil && (ifc.Pure || ifc.HasAssign) && ifc.Opts["devirt"] == "") {
+						if fc := ifc; fc != nil && (fc.Pure || fc.HasAssign) {
 							for _, k := range x.assignKeysStatic(fc, nil) {
 								if k == "*" {
 									all = true
